@@ -28,6 +28,9 @@ def cases(tier, seed):
     n = 160 if tier == "quick" else 12000
     out = [{"seed": seed, "idx": i, "kind": "closed_form"} for i in range(n)]
     out += [{"seed": seed, "idx": i, "kind": "order"} for i in range(2 * n)]
+    # deep columns: the highest retained components decay by e^-40 .. e^-70 over the column (far beyond what the top node can
+    # resolve in double precision) while the output level sits in the lowest eighth, where they are still well resolved
+    out += [{"seed": seed, "idx": i, "kind": "order", "deep": True, "_cost": 3} for i in range(n // 5)]
     return out
 
 
@@ -118,12 +121,23 @@ def order(case):
     gridk = str(rng.choice(["uniform", "geometric"]))
     n0 = int(rng.integers(3, 13))
     z0c = float(St["z"][0]) if gridk == "uniform" else float(max(St["z"][0], 0.15 * zm))
+    deep = bool(case.get("deep"))
+    kx, ky, _, _ = gen.wavenumbers(nx, ny, dx, dy, St["px"], St["py"], St["modes"])
+    Gcol = None
+    if deep:
+        gridk = "uniform"
+        one2 = tuple(np.full(2, float(p[0])) for p in St["profiles"])
+        lam = gen.growth(np.array([0.0, 1.0]), one2, kx, ky)          # growth per metre of the fastest retained component
+        Gcol = float(rng.uniform(40.0, 70.0))
+        n0 = int(np.ceil(1.5 * Gcol / 8.0)) * 8                       # (lambda dz)^2 <= 0.45 on the coarsest grid
+        zm = z0c + Gcol / lam
     z = gen.vgrid(gridk, z0c, zm, n0)
     St["z"] = z
     St["profiles"] = tuple(np.full(n0 + 1, float(p[0])) for p in St["profiles"])
     const = [float(p[0]) for p in St["profiles"]]
-    kx, ky, _, _ = gen.wavenumbers(nx, ny, dx, dy, St["px"], St["py"], St["modes"])
     St["G"] = gen.growth(z, St["profiles"], kx, ky)
+    if deep:
+        St["G"] = St["G"] / 8.0   # growth up to the output level (an eighth of the column): what the rounding floor depends on
     if St["G"] > 10.0:
         return {"evals": 0, "nontrivial": False, "skipped": "G > 10 after rescaling"}
     res0 = gen.resolved(z, St["profiles"], kx, ky)
@@ -134,6 +148,8 @@ def order(case):
     q0, skind = gen.make_source(rng, ny, nx)
     mp = (float(rng.integers(nx)) * dx, float(rng.integers(ny)) * dy) if (fp or rng.random() < 0.5) else (0.0, 0.0)
     frac = float(rng.choice([1.0, 0.5, 0.25]))  # output height as a fraction of the column (a node of every refinement)
+    if deep:
+        frac = 0.125
     errs = []
     calls = 0
     for mult in (1, 2, 4, 8):
@@ -171,7 +187,9 @@ def order(case):
     if errs[3] > 0.02 and errs[3] > errs[0] / 3:
         viol.append({"what": "numeric_and_analytic_branch_disagree", "errors": errs, "grid": gridk, "n0": n0, "footprint": fp, "meas_pt": mp,
                      "resolved": res0, "setup": desc})
-    b = {f"b:grid:{gridk}": 1, f"b:halo:{St['halo_class']}": 1, f"b:modes:{St['mode_class']}": 1, "b:footprint" if fp else "b:dispersion": 1,
+    if deep:
+        desc = dict(desc, column_growth=Gcol)
+    b = {f"b:grid:{gridk}": 1, "b:deep_column" if deep else "b:shallow_column": 1, f"b:halo:{St['halo_class']}": 1, f"b:modes:{St['mode_class']}": 1, "b:footprint" if fp else "b:dispersion": 1,
          "b:qualifies" if qualifies else "b:below_rounding_floor": 1}
     return {"evals": 3, "nontrivial": bool(qualifies), "sig": f"b|{case['idx']}", "buckets": b, "resid": resid,
             "counters": {"solver_calls": calls, "refinement_triples": 1}, "violations": viol,
